@@ -487,6 +487,12 @@ def replay(ctx, payload):
 def replay_known(ctx, finding):
     """Does this open finding still reproduce? (witness = a case descriptor of this module)"""
     w = finding.get('witness')
+    if isinstance(w, dict) and w.get('special') == 'newline-key':
+        from srctools.vmf import VMF
+        vmf = VMF()
+        vmf.create_ent('info_target', **{''.join(map(chr, w['key'])): ''.join(map(chr, w['value']))})
+        fails, _ = check_map(ctx, vmf, False, True, False, w)
+        return any(k in ('export-unparseable', 'reparse-raises') or k.startswith('field') for k, _ in fails)
     if not isinstance(w, dict) or not ('gen' in w or 'file' in w):
         return None
     vmf = build_case(w)
